@@ -97,6 +97,48 @@ impl DataWriterTrait for TraceWriter {
 	}
 }
 
+/// a writer whose `fail_at`-th data operation fails (once) without writing anything
+pub struct FaultWriter {
+	pub image: Vec<u8>,
+	pos: u64,
+	count: usize,
+	fail_at: usize,
+}
+
+impl FaultWriter {
+	fn step(&mut self) -> Result<()> {
+		let c = self.count;
+		self.count += 1;
+		if c == self.fail_at {
+			anyhow::bail!("injected I/O error at operation {c}");
+		}
+		Ok(())
+	}
+}
+
+impl DataWriterTrait for FaultWriter {
+	fn append(&mut self, blob: &Blob) -> Result<ByteRange> {
+		self.step()?;
+		let r = ByteRange::new(self.pos, blob.len());
+		let pos = self.pos;
+		apply(&mut self.image, pos, blob.as_slice());
+		self.pos += blob.len();
+		Ok(r)
+	}
+	fn write_start(&mut self, blob: &Blob) -> Result<()> {
+		self.step()?;
+		apply(&mut self.image, 0, blob.as_slice());
+		Ok(())
+	}
+	fn get_position(&mut self) -> Result<u64> {
+		Ok(self.pos)
+	}
+	fn set_position(&mut self, position: u64) -> Result<()> {
+		self.pos = position;
+		Ok(())
+	}
+}
+
 pub fn apply(image: &mut Vec<u8>, pos: u64, data: &[u8]) {
 	let end = pos as usize + data.len();
 	if image.len() < end {
@@ -367,6 +409,44 @@ fn run_case_inner(cx: &CaseCtx, rep: &mut Report) {
 		if k < n {
 			let Op::Write { pos, data } = &ops[k];
 			apply(&mut image, *pos, data);
+		}
+	}
+	// writing stops because one operation fails (EIO, a momentarily full disk): the f-th operation returns an
+	// error and writes nothing. Whatever the writer does next — give up, panic, carry on — the bytes it leaves
+	// must not be accepted as a container that lacks tiles
+	if n <= 3000 {
+		let mut fs: Vec<usize> = if n <= 60 { (0..n).collect() } else { (0..60).map(|_| rng.usize_below(n)).collect() };
+		fs.extend([0, n.saturating_sub(1), n.saturating_sub(2), n / 2]);
+		fs.sort();
+		fs.dedup();
+		for f in fs {
+			let mut src = MemSource::new(&ts);
+			let mut fw = FaultWriter { image: vec![], pos: 0, count: 0, fail_at: f };
+			let res = guard::catch_strict_thread(|| {
+				guard::block_on(async {
+					if format == "versatiles" {
+						VersaTilesWriter::write_to_writer(&mut src, &mut fw).await
+					} else {
+						PMTilesWriter::write_to_writer(&mut src, &mut fw).await
+					}
+				})
+			});
+			rep.eval();
+			rep.count("failed_operation_points", 1);
+			rep.count(match &res { Ok(Ok(())) => "writer_reported_success_after_a_failed_operation", Ok(Err(_)) => "writer_returned_the_error", Err(_) => "writer_panicked_on_the_error" }, 1);
+			match try_image(format, &fw.image, &ts) {
+				Outcome::Rejected => rep.count("images_rejected", 1),
+				Outcome::OpenedIntact => rep.count("images_after_a_failed_operation_opened_and_intact", 1),
+				Outcome::OpenedWrong(e) => {
+					rep.violation(&format!("{format}|opens-but-wrong|failed-operation"), "writing stopped being complete at a failed operation, yet the file opens as a valid container that lacks / misreports tiles",
+						json!({"format": format, "tileset": ts.describe(), "operations_total": n, "failed_operation": f, "writer_result": match &res { Ok(Ok(())) => "Ok".to_string(), Ok(Err(e)) => format!("Err({e:#})"), Err(p) => format!("panic: {}", p.describe()) }, "what": e}));
+					break;
+				}
+				Outcome::Panicked(p) => {
+					rep.count("images_on_which_the_reader_panicked", 1);
+					rep.note(&format!("reader panic on an image after a failed operation: {}", p.signature("open")));
+				}
+			}
 		}
 	}
 	if rep.wants_sample() {
